@@ -1030,6 +1030,9 @@ class Policy:
         self.inject_kind = [(self.wids[k], kind, occ, act) for k, kind, occ, act in desc.get('inject_kind', []) if k < len(self.wids)]
         self.kind_seen = {}
         self.counted = {}
+        # time_passes: [scheduler step, seconds] - wall-clock time that goes by between two scheduling points (only the redis
+        # stand-in has a clock: keys with a time to live vanish; jug sets none, so nothing may change)
+        self.time_passes = [(int(a), float(b)) for a, b in desc.get('time_passes', [])]
         self.script = desc.get('script')
         self.order = desc.get('order')          # explicit preference list of worker indices per step (enumeration)
 
@@ -1359,6 +1362,10 @@ class Runtime:
                     raise HarnessError(self.internal)
                 if step >= MAX_STEPS:
                     raise HarnessError('run exceeds %d steps' % MAX_STEPS)
+                for (st_, secs) in policy.time_passes:
+                    if st_ == step and self.backend.server is not None:
+                        self.backend.server.advance(secs)
+                        self.note('time-passes:%g' % secs)
                 w, act = policy.choose(parked, step)
                 decisions.append([w.wid, act])
                 self.alts[-1].append(sorted(x.wid for x in parked))
@@ -2136,7 +2143,18 @@ def gen_policy(rng, nw, flavour=None):
         d['late'] = {str(k): rng.randint(1, 120) for k in range(nw) if rng.random() < 0.6}
     if flavour in ('stall_at', 'mixed'):
         d['stall_at'] = [[rng.randrange(nw), rng.choice(STALL_KINDS[:7]), rng.randint(5, 150), rng.randint(0, 4)] for _ in range(rng.randint(1, 3))]
+    if rng.random() < 0.5:
+        add_time_passes(rng, d)
     return d
+
+
+LONG_TIMES = (3600.0, 2 * 86400.0, 40 * 86400.0, 10 * 365 * 86400.0)
+
+
+def add_time_passes(rng, pol, upto=150):
+    """an hour / two days / forty days / ten years go by at one to three random instants of the schedule"""
+    pol['time_passes'] = sorted([rng.randint(1, upto), rng.choice(LONG_TIMES)] for _ in range(rng.randint(1, 3)))
+    return pol
 
 
 def gen_workers(rng, nw, patient=True):
